@@ -31,3 +31,27 @@ Print Assumptions C01_oracle_pre.
 Theorem C01_init `{Sig} : forall n ks, inv2 (empty2 n ks).
 Proof. exact inv2_empty. Qed.
 Print Assumptions C01_init.
+
+(** Non-vacuity: a concrete history of public calls meets the premises of [C01_history] and really edits
+    the map (executed on the f64 instance of the model). *)
+From Coq Require Import Floats Uint63. Import ListNotations.
+From HC Require Import Extract.Run2.
+Fixpoint hist_preb (fa : option N) (st : state2) (ops : list op2) : bool :=
+  match ops with
+  | [] => true
+  | o :: rest => pre_opb fa st o && hist_preb fa (snd (step2 fa st o)) rest
+  end.
+Lemma hist_preb_sound : forall fa ops st, hist_preb fa st ops = true -> hist_pre fa st ops.
+Proof.
+  intros fa. induction ops as [|o rest IH]; intros st Hb; cbn in *; [exact I|].
+  apply andb_prop in Hb as [Ho Hr]. split; [now apply C01_oracle_pre | now apply IH].
+Qed.
+Definition c01_ops : list op2 :=
+  [Force (Link1 1 2); Force (Link1 2 1); Force (Link1 3 4); Force (Link1 4 3);
+   Force (WriteVertex 1 (PrimFloat.of_uint63 0, PrimFloat.of_uint63 0)); Force (Sew2 1 3);
+   AddDart; Force (Unsew2 3); RemoveDart 5; Block [Link2 2 4; Unlink1 1]].
+Example C01_history_nonvacuous :
+  hist_pre None (empty2 4 []) c01_ops /\
+  let st := exec2 None (empty2 4 []) c01_ops in
+  beta (mem st) 1 2 = 1 /\ beta (mem st) 2 2 = 4 /\ beta (mem st) 1 1 = 0 /\ unused (mem st) 5 = true /\ nd st = 6.
+Proof. split; [apply hist_preb_sound; vm_compute; reflexivity | vm_compute; repeat split; reflexivity]. Qed.
